@@ -3,7 +3,13 @@ package pure
 // C03 Block change hash depends only on the final key/value content.
 // Oracles: (1) metamorphic — two differently ordered, differently redundant histories that reach the same final
 // content of touched keys give the same ChangeHash and the same write-set listing; (2) reference model — a Go map
-// (deleted = empty value) whose sorted listing must equal GetWriteSet().ForEach and whose sha256 must equal ChangeHash.
+// (deleted = empty value) whose sorted listing must equal GetWriteSet().ForEach byte for byte, whose per-key content must
+// equal OverlayDB.Get and whose sha256 must equal ChangeHash.
+// Value sizes are heavy-tailed (0, 1..64 bytes, but also 200..3000, 1000..1100, 4000..4200, 6000, 10000 and 70000
+// bytes: contract-code-like entries larger than the whole key/value buffer of a fresh block overlay (4 KiB) or of a
+// fresh transaction cache (1 KiB)), so that "same final content => same write set" also covers buffer growth at every
+// point of a history (after dead bytes left by overwrites/deletes, after Reset(), for new keys and for overwrites).
+// Routes: OverlayDB directly, and transaction CacheDB -> Commit()/Reset() -> OverlayDB as the block execution loop does.
 
 import (
 	"bytes"
@@ -13,7 +19,9 @@ import (
 	"strings"
 	"testing"
 
+	scommon "github.com/ontio/ontology/core/store/common"
 	"github.com/ontio/ontology/core/store/overlaydb"
+	"github.com/ontio/ontology/smartcontract/storage"
 	"pgregory.net/rapid"
 
 	"verifharness/internal/harn"
@@ -56,27 +64,104 @@ func c03Keys(t *rapid.T, maxKeys int) [][]byte {
 	return keys
 }
 
-func c03Val(t *rapid.T, cur []byte, big bool) []byte {
-	switch rapid.IntRange(0, 9).Draw(t, "valkind") {
+// c03Fill returns n pseudo-random bytes determined by seed (xorshift32): large values cost two rapid draws (size
+// class, seed) instead of one draw per byte, and almost none of their bytes is zero-run (lost bytes are visible).
+func c03Fill(seed uint32, n int) []byte {
+	out := make([]byte, n)
+	x := seed*2654435761 + 0x9e3779b9
+	if x == 0 {
+		x = 1
+	}
+	for i := 0; i < n; i += 3 {
+		x ^= x << 13
+		x ^= x >> 17
+		x ^= x << 5
+		for j, y := i, x>>5; j < i+3 && j < n; j, y = j+1, y>>8 {
+			out[j] = byte(y)
+		}
+	}
+	return out
+}
+
+// c03LargeThreshold: a value of at least this many bytes is counted as "large" in the class statistics.
+const c03LargeThreshold = 1000
+
+// c03Large draws a value from the heavy tail of the size pool: 200..3000, 1000..1100 (around the 1 KiB initial
+// buffer of a transaction cache), 4000..4200 (around the 4 KiB initial buffer of a block overlay), 6000, 10000, 70000.
+func c03Large(t *rapid.T) []byte {
+	var n int
+	switch rapid.IntRange(0, 23).Draw(t, "sizeclass") {
+	case 0, 1, 2, 3:
+		n = rapid.IntRange(200, 3000).Draw(t, "size")
+	case 4, 5, 6, 7, 8:
+		n = rapid.IntRange(1000, 1100).Draw(t, "size")
+	case 9, 10, 11, 12, 13:
+		n = rapid.IntRange(4000, 4200).Draw(t, "size")
+	case 14, 15, 16, 17, 18:
+		n = 6000
+	case 19, 20, 21, 22:
+		n = 10000
+	default:
+		n = 70000
+	}
+	return c03Fill(rapid.Uint32Range(0, 1<<16).Draw(t, "fill"), n)
+}
+
+// c03Val draws the value of one put; largePct = percentage of puts that take their value from the heavy tail.
+func c03Val(t *rapid.T, cur []byte, largePct int) []byte {
+	switch kind := rapid.IntRange(0, 9).Draw(t, "valkind"); kind {
 	case 0:
 		return nil // put-empty: recorded like a deletion
 	case 1, 2:
-		if len(cur) > 0 {
-			return append([]byte{}, cur...) // overwrite with the same value
+		if len(cur) > 0 && (kind == 1 || len(cur) < c03LargeThreshold) {
+			return append([]byte{}, cur...) // overwrite with the same value (half as often when it is a large one)
 		}
-	case 3:
-		if big {
-			return rapid.SliceOfN(rapid.Byte(), 200, 3000).Draw(t, "bigval")
-		}
+	}
+	if rapid.IntRange(0, 99).Draw(t, "large") < largePct {
+		return c03Large(t)
 	}
 	return rapid.SliceOfN(rapid.Byte(), 1, 64).Draw(t, "val")
 }
 
-func c03Apply(db *overlaydb.OverlayDB, ops []c03Op) {
+// c03Probe counts, from the public observers of the real write set (Capacity/Free/Size/Get — measurement only, never
+// part of the oracle), how often a write makes the append-only key/value buffer grow and in which state it was.
+type c03Probe map[string]int
+
+func (p c03Probe) before(ws *overlaydb.MemDB, key, val []byte) {
+	if p == nil {
+		return
+	}
+	entry := len(key) + len(val)
+	if len(val) == 0 || entry <= ws.Free() {
+		return // nothing appended, or it fits
+	}
+	_, unknown := ws.Get(key)
+	dead := ws.Capacity()-ws.Free() > ws.Size() // used length of the buffer exceeds the live bytes
+	kind := "grow:overwrite"
+	if unknown {
+		kind = "grow:new-key"
+	}
+	p[kind]++
+	if entry > ws.Capacity() {
+		p[kind+"-over-capacity"]++
+		if dead {
+			p[kind+"-over-capacity-after-dead"]++
+		}
+	}
+}
+
+func (p c03Probe) flush(ev *harn.Collector) {
+	for c, n := range p {
+		ev.ClassN(c, int64(n))
+	}
+}
+
+func c03Apply(db *overlaydb.OverlayDB, ops []c03Op, probe c03Probe) {
 	for _, o := range ops {
 		if o.del {
 			db.Delete(o.key)
 		} else {
+			probe.before(db.GetWriteSet(), o.key, o.val)
 			db.Put(o.key, o.val)
 		}
 	}
@@ -121,21 +206,63 @@ func c03FmtList(l []c03KV) string {
 	return sb.String()
 }
 
-// c03CheckAgainstModel compares one overlay with the model; name identifies the history in messages.
-func c03CheckAgainstModel(t *rapid.T, name string, db *overlaydb.OverlayDB, model map[string][]byte, ops []c03Op) {
-	got := c03List(db)
-	want := c03ModelList(model)
-	for i := 1; i < len(got); i++ {
-		if bytes.Compare(got[i-1].k, got[i].k) >= 0 {
-			t.Fatalf("%s: write set not strictly ascending / duplicate key at position %d: %x then %x; ops=%v", name, i, got[i-1].k, got[i].k, ops)
-		}
-	}
+// c03FirstDiff locates the first differing byte of two values (long values are abbreviated in messages).
+func c03FirstDiff(got, want []byte) string {
 	if len(got) != len(want) {
-		t.Fatalf("%s: write set lists %d keys, model has %d touched keys; got {%s} want {%s}; ops=%v", name, len(got), len(want), c03FmtList(got), c03FmtList(want), ops)
+		return fmt.Sprintf(" (length %d, expected %d)", len(got), len(want))
 	}
 	for i := range got {
-		if !bytes.Equal(got[i].k, want[i].k) || !bytes.Equal(got[i].v, want[i].v) {
-			t.Fatalf("%s: write set entry %d is %x=%x, model says %x=%x; ops=%v", name, i, got[i].k, got[i].v, want[i].k, want[i].v, ops)
+		if got[i] != want[i] {
+			j := i + 8
+			if j > len(got) {
+				j = len(got)
+			}
+			return fmt.Sprintf(" (first difference at byte %d of %d: %x, expected %x)", i, len(got), got[i:j], want[i:j])
+		}
+	}
+	return ""
+}
+
+// c03CheckAgainstModel compares one overlay with the model; name identifies the history in messages.
+// The listing is compared inside ForEach without copying (values of tens of kilobytes); copies are made only to
+// report a difference.
+func c03CheckAgainstModel(t *rapid.T, name string, db *overlaydb.OverlayDB, model map[string][]byte, ops []c03Op) {
+	want := c03ModelList(model)
+	n, bad := 0, -1
+	var prev []byte
+	ascending := true
+	db.GetWriteSet().ForEach(func(k, v []byte) {
+		if n > 0 && bytes.Compare(prev, k) >= 0 {
+			ascending = false
+		}
+		prev = k
+		if bad < 0 && (n >= len(want) || !bytes.Equal(k, want[n].k) || !bytes.Equal(v, want[n].v)) {
+			bad = n
+		}
+		n++
+	})
+	if !ascending || bad >= 0 || n != len(want) {
+		got := c03List(db)
+		for i := 1; i < len(got); i++ {
+			if bytes.Compare(got[i-1].k, got[i].k) >= 0 {
+				t.Fatalf("%s: write set not strictly ascending / duplicate key at position %d: %x then %x; ops=%v", name, i, got[i-1].k, got[i].k, ops)
+			}
+		}
+		if len(got) != len(want) {
+			t.Fatalf("%s: write set lists %d keys, model has %d touched keys; got {%s} want {%s}; ops=%v", name, len(got), len(want), c03FmtList(got), c03FmtList(want), ops)
+		}
+		for i := range got {
+			if !bytes.Equal(got[i].k, want[i].k) || !bytes.Equal(got[i].v, want[i].v) {
+				t.Fatalf("%s: write set entry %d is %x=%s, model says %x=%s%s; ops=%v", name, i, got[i].k, harn.Hex(got[i].v), want[i].k, harn.Hex(want[i].v), c03FirstDiff(got[i].v, want[i].v), ops)
+			}
+		}
+		t.Fatalf("%s: write set listing differs from the model (entry %d) but a second listing does not; ops=%v", name, bad, ops)
+	}
+	// per-key content through the read path of the overlay (touched keys never reach the backing store)
+	for _, kv := range want {
+		v, err := db.Get(kv.k)
+		if err != nil || !bytes.Equal(v, kv.v) {
+			t.Fatalf("%s: Get(%x) = %s, %v; model says %s%s; ops=%v", name, kv.k, harn.Hex(v), err, harn.Hex(kv.v), c03FirstDiff(v, kv.v), ops)
 		}
 	}
 	h := db.ChangeHash()
@@ -149,10 +276,15 @@ func c03CheckAgainstModel(t *rapid.T, name string, db *overlaydb.OverlayDB, mode
 
 // c03History draws a history over the key pool and returns it with the model of its final content and
 // whether some key was overwritten with a different value or deleted and recreated.
-func c03History(t *rapid.T, keys [][]byte, nops int, big bool) (ops []c03Op, model map[string][]byte, rewrites bool, classes map[string]int) {
+// largePct = percentage of puts whose value comes from the heavy tail of the size pool. Classes "size:*" record where
+// large values (>= 1000 bytes) land: on a key not yet in the write set (the buffer must take key+value in one go), and
+// whether an earlier operation of this history already left dead bytes in the append-only buffer (an overwrite,
+// a re-creation or the deletion of a live value).
+func c03History(t *rapid.T, keys [][]byte, nops int, largePct int) (ops []c03Op, model map[string][]byte, rewrites bool, classes map[string]int) {
 	model = map[string][]byte{}
 	classes = map[string]int{}
 	deleted := map[string]bool{}
+	dead := false
 	for i := 0; i < nops; i++ {
 		k := rapid.SampledFrom(keys).Draw(t, "key")
 		cur, touched := model[string(k)]
@@ -161,6 +293,7 @@ func c03History(t *rapid.T, keys [][]byte, nops int, big bool) (ops []c03Op, mod
 			model[string(k)] = []byte{}
 			if touched && len(cur) > 0 {
 				deleted[string(k)] = true
+				dead = true
 				classes["op:delete-live"]++
 			} else if touched {
 				classes["op:delete-deleted"]++
@@ -169,8 +302,21 @@ func c03History(t *rapid.T, keys [][]byte, nops int, big bool) (ops []c03Op, mod
 			}
 			continue
 		}
-		v := c03Val(t, cur, big)
+		v := c03Val(t, cur, largePct)
 		ops = append(ops, c03Op{key: k, val: v})
+		if len(v) >= c03LargeThreshold {
+			switch {
+			case touched:
+				classes["size:large-overwrite"]++
+			case dead:
+				classes["size:large-new-key-after-dead"]++
+			default:
+				classes["size:large-new-key-clean"]++
+			}
+		}
+		if touched && (len(v) > 0 || len(cur) > 0) {
+			dead = true // the previous value (and, when something is appended, the previous key copy) is dead now
+		}
 		switch {
 		case len(v) == 0:
 			classes["op:put-empty"]++
@@ -196,8 +342,9 @@ func c03History(t *rapid.T, keys [][]byte, nops int, big bool) (ops []c03Op, mod
 }
 
 // c03Rewrite builds a second history with the same final content of the same touched keys: per key a generated
-// mini-history (junk puts, deletes, recreations) that ends in the final value, interleaved by a generated shuffle.
-func c03Rewrite(t *rapid.T, model map[string][]byte) []c03Op {
+// mini-history (junk puts of small and, with largeJunkPct %, heavy-tail sizes, deletes, recreations) that ends in the
+// final value, interleaved by a generated shuffle.
+func c03Rewrite(t *rapid.T, model map[string][]byte, largeJunkPct int) []c03Op {
 	final := c03ModelList(model)
 	per := make([][]c03Op, len(final))
 	var labels []int
@@ -212,7 +359,11 @@ func c03Rewrite(t *rapid.T, model map[string][]byte) []c03Op {
 			case 2:
 				per[i] = append(per[i], c03Op{key: kv.k, val: append([]byte{}, kv.v...)})
 			default:
-				per[i] = append(per[i], c03Op{key: kv.k, val: rapid.SliceOfN(rapid.Byte(), 1, 80).Draw(t, "junk")})
+				if rapid.IntRange(0, 99).Draw(t, "largejunk") < largeJunkPct {
+					per[i] = append(per[i], c03Op{key: kv.k, val: c03Large(t)})
+				} else {
+					per[i] = append(per[i], c03Op{key: kv.k, val: rapid.SliceOfN(rapid.Byte(), 1, 80).Draw(t, "junk")})
+				}
 			}
 		}
 		if len(kv.v) == 0 {
@@ -261,8 +412,10 @@ func c03Desc(ops []c03Op) string {
 	return sb.String()
 }
 
-const c03Rule = "histories of Put/Delete over a pool of 1..24 distinct keys (alphabet of 7 bytes, shared prefixes, lengths 0..40, empty key included), values 0..64 bytes " +
-	"(put-empty, overwrite-same, overwrite, delete, delete-then-recreate); second history = per-key generated redundant ops ending in the same final value, shuffled; " +
+const c03Rule = "histories of Put/Delete over a pool of 1..24 distinct keys (alphabet of 7 bytes, shared prefixes, lengths 0..40, empty key included), values from a heavy-tailed size pool: " +
+	"0, 1..64 bytes, and for ~5 % of the puts 200..3000, 1000..1100, 4000..4200, 6000, 10000 or 70000 bytes (entries larger than the whole 4 KiB buffer of a fresh overlay, written for new keys and as overwrites, before and after dead bytes exist) " +
+	"(put-empty, overwrite-same, overwrite, delete, delete-then-recreate); second history = per-key generated redundant ops (small and heavy-tail junk values) ending in the same final value, shuffled; " +
+	"oracle = write set listing byte for byte, OverlayDB.Get per touched key and ChangeHash against a map model, and equality of the two histories; " +
 	"non-trivial = the two histories differ as sequences and the first one overwrites a key with a different value or recreates a deleted key; distinct = different first history"
 
 // Two histories with the same final content: same hash, same listing, both equal to the model.
@@ -270,20 +423,28 @@ func TestC03_OrderIndependent(t *testing.T) {
 	ev := harn.For("C03").Rule(c03Rule)
 	ev.Floor("op:overwrite", "ops", 0.05)
 	ev.Floor("op:recreate", "ops", 0.02)
+	// buffer growth: large first writes of a key after dead bytes exist (generator view), and writes of a new key
+	// larger than the whole current buffer while it holds dead bytes (measured on the real write set), per case
+	ev.Floor("size:large-new-key-after-dead", "order:cases", 0.10)
+	ev.Floor("grow:new-key-over-capacity-after-dead", "order:cases", 0.08)
+	ev.Floor("grow:overwrite-over-capacity", "order:cases", 0.03)
 	harn.Check(t, 12000, 600000, func(t *rapid.T) {
 		keys := c03Keys(t, 24)
 		nops := rapid.IntRange(1, 80).Draw(t, "nops")
-		ops, model, rewrites, classes := c03History(t, keys, nops, false)
-		ops2 := c03Rewrite(t, model)
+		ops, model, rewrites, classes := c03History(t, keys, nops, 5)
+		ops2 := c03Rewrite(t, model, 8)
 		for c, n := range classes {
 			ev.ClassN(c, int64(n))
 		}
 		ev.ClassN("ops", int64(len(ops)))
+		ev.Class("order:cases")
 
 		db1 := overlaydb.NewOverlayDB(nil)
 		db2 := overlaydb.NewOverlayDB(nil)
-		c03Apply(db1, ops)
-		c03Apply(db2, ops2)
+		probe := c03Probe{}
+		c03Apply(db1, ops, probe)
+		c03Apply(db2, ops2, probe)
+		probe.flush(ev)
 		c03CheckAgainstModel(t, "first history", db1, model, ops)
 		c03CheckAgainstModel(t, "second history", db2, model, ops2)
 		h1, h2 := db1.ChangeHash(), db2.ChangeHash()
@@ -299,9 +460,12 @@ func TestC03_OrderIndependent(t *testing.T) {
 }
 
 // Long histories against the model, checked at generated intermediate points, with values large enough to make
-// the key/value buffer and the node array reallocate; the overlay is reused after Reset() with stale content.
+// the key/value buffer and the node array reallocate (heavy-tailed sizes up to 70000 bytes, so that single entries
+// exceed the whole buffer again and again as it grows); the overlay is reused after Reset() with stale content.
 func TestC03_LongHistoryModel(t *testing.T) {
-	ev := harn.For("C03").Rule(c03Rule + " || long: up to 400 (quick) / 2000 (thorough) ops with 200..3000-byte values, intermediate checkpoints, overlay reused after Reset()")
+	ev := harn.For("C03").Rule(c03Rule + " || long: up to 400 (quick) / 2000 (thorough) ops over up to 60 keys, ~10 % of the puts with heavy-tail sizes (200..3000, 1000..1100, 4000..4200, 6000, 10000, 70000 bytes), intermediate checkpoints, overlay reused after Reset() with its grown buffer")
+	ev.Floor("size:large-new-key-after-dead", "long:cases", 0.5)
+	ev.Floor("grow:new-key-over-capacity-after-dead", "long:cases", 0.04)
 	maxOps := 400
 	if harn.Thorough() {
 		maxOps = 2000
@@ -309,10 +473,11 @@ func TestC03_LongHistoryModel(t *testing.T) {
 	harn.Check(t, 1500, 48000, func(t *rapid.T) {
 		keys := c03Keys(t, 60)
 		db := overlaydb.NewOverlayDB(nil)
+		probe := c03Probe{}
 		reused := rapid.Bool().Draw(t, "reuseAfterReset")
 		if reused {
-			garbage, _, _, _ := c03History(t, keys, rapid.IntRange(1, 40).Draw(t, "ngarbage"), true)
-			c03Apply(db, garbage)
+			garbage, _, _, _ := c03History(t, keys, rapid.IntRange(1, 40).Draw(t, "ngarbage"), 10)
+			c03Apply(db, garbage, nil)
 			db.Reset()
 			if l := c03List(db); len(l) != 0 {
 				t.Fatalf("write set after Reset() still lists %d keys: {%s}", len(l), c03FmtList(l))
@@ -320,11 +485,12 @@ func TestC03_LongHistoryModel(t *testing.T) {
 			ev.Class("case:reused-after-reset")
 		}
 		nops := rapid.IntRange(1, maxOps).Draw(t, "nops")
-		ops, model, rewrites, classes := c03History(t, keys, nops, true)
+		ops, model, rewrites, classes := c03History(t, keys, nops, 10)
 		for c, n := range classes {
 			ev.ClassN(c, int64(n))
 		}
 		ev.ClassN("ops", int64(len(ops)))
+		ev.Class("long:cases")
 		// apply with checkpoints: compare with the model of the prefix
 		cps := rapid.SliceOfN(rapid.IntRange(0, len(ops)), 0, 3).Draw(t, "checkpoints")
 		sort.Ints(cps)
@@ -337,6 +503,7 @@ func TestC03_LongHistoryModel(t *testing.T) {
 					db.Delete(o.key)
 					prefix[string(o.key)] = []byte{}
 				} else {
+					probe.before(db.GetWriteSet(), o.key, o.val)
 					db.Put(o.key, o.val)
 					prefix[string(o.key)] = append([]byte{}, o.val...)
 				}
@@ -347,8 +514,9 @@ func TestC03_LongHistoryModel(t *testing.T) {
 			c03CheckAgainstModel(t, fmt.Sprintf("prefix of %d ops", cp), db, prefix, ops[:cp])
 		}
 		step(len(ops))
+		probe.flush(ev)
 		c03CheckAgainstModel(t, "long history", db, model, ops)
-		// the minimal history (each final pair once, in a generated order) reaches the same hash
+		// the minimal history (each final pair once, in a generated order) reaches the same hash and listing
 		final := c03ModelList(model)
 		order := make([]int, len(final))
 		for i := range order {
@@ -358,13 +526,115 @@ func TestC03_LongHistoryModel(t *testing.T) {
 			order = rapid.Permutation(order).Draw(t, "minimalOrder")
 		}
 		db2 := overlaydb.NewOverlayDB(nil)
+		var minimal []c03Op
 		for _, i := range order {
-			db2.Put(final[i].k, final[i].v)
+			minimal = append(minimal, c03Op{key: final[i].k, val: final[i].v})
 		}
+		c03Apply(db2, minimal, nil)
+		c03CheckAgainstModel(t, "minimal history", db2, model, minimal)
 		if h1, h2 := db.ChangeHash(), db2.ChangeHash(); h1 != h2 {
 			t.Fatalf("history and its minimal equivalent (final pairs written once, order %v) hash differently: %x vs %x; ops=%v", order, h1[:], h2[:], ops)
 		}
 		ev.Case(rewrites && len(ops) > len(final), fmt.Sprintf("long(reused=%v): %s", reused, c03Desc(ops)))
+	})
+}
+
+// c03TxKey is the key under which CacheDB.Put/Delete(key) reaches the block overlay.
+func c03TxKey(k []byte) []byte {
+	return append([]byte{byte(scommon.ST_STORAGE)}, k...)
+}
+
+// The route the block execution loop uses: one overlay per block, one transaction cache (CacheDB, 1 KiB initial
+// buffer) that is Reset() before every transaction, written by the transaction and then either committed into the
+// overlay (Commit replays the cache's final content in key order) or abandoned. The overlay must equal the model of
+// the committed transactions, and must equal the overlay obtained by writing the same operations directly.
+func TestC03_TxCacheCommit(t *testing.T) {
+	ev := harn.For("C03").Rule(c03Rule + " || txcache: 1..8 transactions of 1..24 ops each (same key pool and size pool, ~12 % heavy-tail values) written through storage.CacheDB over one overlay; " +
+		"each transaction is committed (80 %) or abandoned (cache Reset() as the block loop does); the overlay is compared with the model of the committed ops, with an overlay that received the committed ops directly and with the minimal history; " +
+		"non-trivial = at least two committed transactions and an overwrite/recreation inside a transaction or across transactions")
+	ev.Floor("txc:tx-large-new-key-after-dead", "txc:cases", 0.15)
+	ev.Floor("txc:block-large-new-key-after-dead", "txc:cases", 0.15)
+	ev.Floor("txc:tx-abandoned", "txc:tx", 0.05)
+	harn.Check(t, 3000, 150000, func(t *rapid.T) {
+		keys := c03Keys(t, 24)
+		ov := overlaydb.NewOverlayDB(nil)
+		cache := storage.NewCacheDB(ov)
+		direct := overlaydb.NewOverlayDB(nil)
+		model := map[string][]byte{}
+		var flat []c03Op // committed ops with the overlay keys, for messages and the direct route
+		var desc strings.Builder
+		ntx := rapid.IntRange(1, 8).Draw(t, "ntx")
+		committed, cross, inner := 0, false, false
+		blockDead := false
+		for i := 0; i < ntx; i++ {
+			cache.Reset()
+			nops := rapid.IntRange(1, 24).Draw(t, "nops")
+			ops, txModel, rewrites, classes := c03History(t, keys, nops, 12)
+			for _, o := range ops {
+				if o.del {
+					cache.Delete(o.key)
+				} else {
+					cache.Put(o.key, o.val)
+				}
+			}
+			ev.Class("txc:tx")
+			ev.ClassN("ops", int64(len(ops)))
+			ev.ClassN("txc:tx-large-new-key-after-dead", int64(classes["size:large-new-key-after-dead"]))
+			commit := rapid.IntRange(0, 4).Draw(t, "commit") != 0
+			if desc.Len() < 500 {
+				fmt.Fprintf(&desc, "tx%d(commit=%v): %s| ", i, commit, c03Desc(ops))
+			}
+			if !commit {
+				ev.Class("txc:tx-abandoned")
+				continue
+			}
+			cache.Commit()
+			committed++
+			inner = inner || rewrites
+			// the overlay sees the final content of the transaction, in key order
+			for _, kv := range c03ModelList(txModel) {
+				k := c03TxKey(kv.k)
+				old, touched := model[string(k)]
+				if touched {
+					if len(kv.v) > 0 || len(old) > 0 {
+						cross = true
+					}
+				} else if len(kv.v) >= c03LargeThreshold && blockDead {
+					ev.Class("txc:block-large-new-key-after-dead")
+				}
+				if touched && (len(kv.v) > 0 || len(old) > 0) {
+					blockDead = true
+				}
+				model[string(k)] = kv.v
+			}
+			for _, o := range ops {
+				flat = append(flat, c03Op{key: c03TxKey(o.key), val: o.val, del: o.del})
+			}
+		}
+		ev.Class("txc:cases")
+		c03CheckAgainstModel(t, "overlay behind the transaction cache", ov, model, flat)
+		c03Apply(direct, flat, nil)
+		c03CheckAgainstModel(t, "committed ops written directly", direct, model, flat)
+		final := c03ModelList(model)
+		order := make([]int, len(final))
+		for i := range order {
+			order[i] = i
+		}
+		if len(order) > 1 {
+			order = rapid.Permutation(order).Draw(t, "minimalOrder")
+		}
+		var minimal []c03Op
+		for _, i := range order {
+			minimal = append(minimal, c03Op{key: final[i].k, val: final[i].v})
+		}
+		least := overlaydb.NewOverlayDB(nil)
+		c03Apply(least, minimal, nil)
+		c03CheckAgainstModel(t, "minimal history", least, model, minimal)
+		h, hd, hm := ov.ChangeHash(), direct.ChangeHash(), least.ChangeHash()
+		if h != hd || h != hm {
+			t.Fatalf("same final content, different ChangeHash: via transaction cache %x, direct %x, minimal %x; committed ops=%v", h[:], hd[:], hm[:], flat)
+		}
+		ev.Case(committed >= 2 && (cross || inner), "txcache: "+desc.String())
 	})
 }
 
@@ -407,7 +677,7 @@ func TestC03_ExhaustiveTiny(t *testing.T) {
 			idx++
 			if idx%harn.Shards() == harn.Shard() {
 				db := overlaydb.NewOverlayDB(nil)
-				c03Apply(db, cur)
+				c03Apply(db, cur, nil)
 				model := map[string][]byte{}
 				for _, o := range cur {
 					model[string(o.key)] = append([]byte{}, o.val...)
